@@ -88,7 +88,8 @@ func (pl *Playlist) M3u8(token string) ([]byte, error) {
 		}
 	}
 
-	return w.Bytes(), nil
+	// w 归还缓冲池后会被其他请求复用，必须返回副本
+	return append([]byte(nil), w.Bytes()...), nil
 }
 
 // Segment 获取 segment
